@@ -818,6 +818,48 @@ pub fn family_recharge() -> Vec<PProblem> {
     out
 }
 
+/// F-mixed10: ten jobs of every kind the oracle replays fully, three vehicles of two types, reloads, an optional break,
+/// skills, a relation: solved with many generations so that every search operator gets its turn on a rich problem.
+pub fn family_mixed10() -> Vec<PProblem> {
+    use TaskKind::*;
+    let mut out = vec![];
+    for variant in 0..3 {
+        let mut jobs = vec![
+            job("d0", vec![task(Delivery, vec![place(1, 2., &[], None)], &[1])]),
+            job("d1", vec![task(Delivery, vec![place(2, 2., &[(0., 150.)], None)], &[1])]),
+            job("d2", vec![task(Delivery, vec![place(3, 1., &[(50., 400.)], None)], &[2])]),
+            job("d3", vec![task(Delivery, vec![place(4, 1., &[], Some("far"))], &[1])]),
+            job("p0", vec![task(Pickup, vec![place(1, 1., &[], None)], &[1])]),
+            job("p1", vec![task(Pickup, vec![place(3, 2., &[(20., 300.)], None)], &[1])]),
+            job("m0", vec![task(Pickup, vec![place(2, 1., &[], Some("p"))], &[1]), task(Delivery, vec![place(4, 1., &[], Some("d"))], &[1])]),
+            job("m1", vec![task(Pickup, vec![place(4, 1., &[], Some("p"))], &[1]), task(Delivery, vec![place(1, 1., &[(0., 500.)], Some("d"))], &[1])]),
+            job("s0", vec![task(Service, vec![place(2, 3., &[(100., 250.)], None)], &[])]),
+            job("s1", vec![task(Service, vec![place(3, 3., &[(0., 40.), (200., 350.)], None), place(1, 3., &[], Some("alt"))], &[])]),
+        ];
+        jobs[3].skills = Some(PSkills { all_of: vec!["crane".into()], ..Default::default() });
+        let mut s_a = shift(ShiftKind::Closed);
+        s_a.end = Some((0, 600.));
+        s_a.reloads = vec![PReload { loc: 0, duration: 3., times: vec![], tag: Some("r1".into()), resource_id: None }];
+        let mut s_b = shift(ShiftKind::StartLatest);
+        s_b.end = Some((0, 600.));
+        s_b.breaks = vec![PBreak { time: (60., 200.), duration: 6., loc: None, tag: Some("lunch".into()), offset: false, policy: None }];
+        let mut a = vehicle_type("a", 2, &[3], vec![s_a]);
+        a.skills = vec!["crane".into()];
+        let mut b = vehicle_type("b", 1, &[4], vec![s_b]);
+        b.fixed = 30.;
+        b.cost_distance = 2.;
+        if variant == 1 {
+            b.limits = Some(PLimits { max_distance: Some(260.), tour_size: Some(5), ..Default::default() });
+        }
+        let mut p = base(format!("mixed10/v{variant}"), jobs, vec![a, b]);
+        if variant == 2 {
+            p.relations = vec![PRelation { kind: "sequence".into(), jobs: vec!["d0".into(), "p0".into()], vehicle_id: "a_1".into(), shift_index: Some(0) }];
+        }
+        out.push(p.fit_matrices());
+    }
+    out
+}
+
 pub fn all_families(tier: Tier) -> Vec<(&'static str, Vec<PProblem>)> {
     raw_families(tier).into_iter().map(|(n, ps)| (n, ps.into_iter().map(|p| p.fit_matrices()).collect())).collect()
 }
